@@ -21,6 +21,9 @@ def run(tier, seed):
             cases.append({"name": "t%d" % len(cases), "kind": "impostor", "impostor": "nocert", "proto": p})
             cases.append({"name": "t%d" % len(cases), "kind": "impostor", "impostor": "chain", "proto": p})
             cases.append({"name": "t%d" % len(cases), "kind": "impostor", "impostor": "replay", "proto": p})
+            # the same impostors announcing a TCP address (what they serve on is reached through it)
+            for m in (["nocert", "othercert"] if tier == "quick" else ["nocert", "othercert", "chain"]):
+                cases.append({"name": "t%d" % len(cases), "kind": "impostor", "impostor": m, "proto": p, "tcp": True})
         # the plugin alone, with a host certificate that reached it damaged
         for p in ["netrpc", "grpc"]:
             cases.append({"name": "t%d" % len(cases), "kind": "mangled", "impostor": rng.choice(["firstline", "truncated", "garbage"]), "proto": p})
